@@ -206,11 +206,12 @@ H("C10", "html/layout", "VxH_C10_stack", mode="real", reach=["laid-out"], bounds
 # ---- C12 pages ----
 ASSUMPTIONS["C12"] = [
     "real mode; text-free documents laid out by the real pipeline (tree.NewHTML, BuildFormattingStructure, layoutDocument) with hand-built sheets carrying symbolic lengths; nil font configuration",
-    "margin boxes, page counters, named pages through the `page` property, orphans/widows on real text lines and re-pagination are outside the claim",
+    "VxH_C12_paragraph: text is measured by text.VxAhem, a metric-exact stand-in for the Pango / go-text engines (every rune a 10px em square, breaks after spaces only, no bidi / hyphenation / shaping)",
+    "margin boxes, page counters, named pages through the `page` property and re-pagination are outside the claim",
 ]
 CLAIMS["C12"] = {
-    "text": "For three blocks of symbolic heights on 100px pages and every combination of break-after / break-before values in {auto, page, left, right, avoid} the solver shows each block lands on the page and position that CSS fragmentation prescribes (forced breaks, blank page for the requested side, greedy filling, no overflow past the page bottom); page box geometry and @page selector matching (C03 page harness) are shown for symbolic sizes.",
-    "design_ref": "DESIGN.md section 4 C12",
+    "text": "For three blocks of symbolic heights on 100px pages and every combination of break-after / break-before values in {auto, page, left, right, avoid} the solver shows each block lands on the page and position that CSS fragmentation prescribes (forced breaks, blank page for the requested side, greedy filling, no overflow past the page bottom); page box geometry and @page selector matching (C03 page harness) are shown for symbolic sizes. For a paragraph of 3..6 lines on pages of symbolic height, every line is laid out once, no page is over-full and orphans / widows in 1..3 are honoured on every page where a conforming break position exists.",
+    "design_ref": "DESIGN.md section 4 C12 and 8.3",
     "note": "Trusted: symgo, z3 nlsat. Bounded document shape.",
 }
 H("C12", "html/layout", "VxH_C12_breaks", mode="real", reach=["laid-out", "blank-page-inserted"], bounds="3 sibling blocks with heights in [10,90] on 100x100 pages without margins; break-after of the first and break-before of the second in {auto,page,left,right,avoid}", quick={"maxsteps": 50000000, "time": "500s", "shards": 4})
@@ -219,10 +220,10 @@ H("C12", "html/tree", "VxH_C03_page", reach=["nth-match", "nth-no-match"], bound
 
 # ---- C09 box tree (grid slots only) / C13 ----
 ASSUMPTIONS["C09"] = [
-    "only the table grid-slot assignment of the box tree is covered (real pipeline: NewHTML, GetAllComputedStyles, BuildFormattingStructure) with symbolic colspan / rowspan attribute digits; anonymous-box fix-up, inline/block splitting and blockification are pointer-rich tree rewriting without scalar unknowns and are not covered",
+    "real pipeline (NewHTML, GetAllComputedStyles, BuildFormattingStructure); the table grid-slot assignment with symbolic colspan / rowspan attribute digits, and the well-formedness rules of the statement on one document shape (x-p > x-s > (text, x-i, text, x-j > x-k)) for every assignment of display values (plus float / position of x-i) within the bound; other document shapes, pseudo-elements and list markers are outside the claim",
 ]
 CLAIMS["C09"] = {
-    "text": "For a table of 2 (thorough 3) rows x 2 cells whose colspan and rowspan attributes are symbolic digits (0..3, or absent) the solver shows every cell gets the grid slot of the HTML table model: increasing within a row, first slot never occupied by a row-spanning cell from above, rowspan clipped to the row group with 0 meaning to its end, colspan at least 1.",
+    "text": "For a table of 2 (thorough 3) rows x 2 cells whose colspan and rowspan attributes are symbolic digits (0..3, or absent) the solver shows every cell gets the grid slot of the HTML table model: increasing within a row, first slot never occupied by a row-spanning cell from above, rowspan clipped to the row group with 0 meaning to its end, colspan at least 1. For the five-element document every assignment of display values yields a tree in which block containers hold only block-level boxes or one line box, inline and line boxes hold only inline-level boxes, tables sit in wrappers and hold only table parts (rows in groups, cells in rows), flex / grid containers hold only blockified items and display: none generates no box.",
     "design_ref": "DESIGN.md section 4 C09",
     "note": "Trusted: symgo, z3. Only wrapTable/integerAttribute/NewTableCellBox are decided; the rest of the box-generation rules is outside this technique's reach here.",
 }
@@ -243,10 +244,10 @@ H("C13", "html/layout", "VxH_C13_columns", mode="real", reach=["laid-out"], boun
 
 # ---- C14 backend protocol (links, outline) ----
 ASSUMPTIONS["C14"] = [
-    "only link/anchor resolution and the bookmark outline are covered, on hand-built Page values with symbolic bookmark levels and symbolic anchor / link names; the drawing-call protocol inside a page (paths before paints, fonts before text, finiteness of every number) is not encoded",
+    "link/anchor resolution and the bookmark outline on hand-built Page values with symbolic bookmark levels and symbolic anchor / link names; finiteness of the SVG dash pattern handed to SetDash (real mode: the paths on which the real code divides by zero are decided by running their solver model natively); 'paint and clip follow a path' on the recording canvas of the C16 paint harness; fonts-before-text and the finiteness of the other numbers are not encoded",
 ]
 CLAIMS["C14"] = {
-    "text": "For <=4 (thorough 5) bookmarks of symbolic levels 1..6 split over two pages the solver shows makeBookmarkTree builds exactly the outline defined by the levels; for two pages with up to two anchors and two links each, with symbolic names, resolveLinks defines each anchor once on the first page that has it, drops dangling internal links and keeps the others.",
+    "text": "For <=4 (thorough 5) bookmarks of symbolic levels 1..6 split over two pages the solver shows makeBookmarkTree builds exactly the outline defined by the levels; for two pages with up to two anchors and two links each, with symbolic names, resolveLinks defines each anchor once on the first page that has it, drops dangling internal links and keeps the others. resolveDashes never hands SetDash a negative, NaN or infinite number and wraps a negative offset into [0, total].",
     "design_ref": "DESIGN.md section 4 C14",
     "note": "Trusted: symgo, z3.",
 }
@@ -255,10 +256,10 @@ H("C14", "html/document", "VxH_C14_links", reach=["resolved"], bounds="2 pages x
 
 # ---- C15 determinism (map order, shared state) ----
 ASSUMPTIONS["C15"] = [
-    "Go map iteration order is a symbolic choice (every permutation of the keys of each ranged map is explored); only the map-iteration sites reachable without text layout are covered (anchor lists); goroutine interleavings, data races and process-to-process comparison are outside this technique (no encoding of Go's memory model)",
+    "Go map iteration order is a symbolic choice (every permutation of the keys of each ranged map is explored); the sites covered are the anchor lists of resolveLinks and the SVG template resolution of inheritDefs; shared state: the hyphenation dictionary data used by two Hyphener values; goroutine interleavings, data races and process-to-process comparison are outside this technique (no encoding of Go's memory model)",
 ]
 CLAIMS["C15"] = {
-    "text": "With map iteration order turned into a solver-chosen permutation, two runs of resolveLinks on the same document (1..3 anchors on the first page, 2 on the second) are shown to hand identical anchor lists to the backend.",
+    "text": "With map iteration order turned into a solver-chosen permutation, two runs of resolveLinks on the same document (1..3 anchors on the first page, 2 on the second) are shown to hand identical anchor lists to the backend; two runs of the SVG href-template resolution on every reference graph of three gradients give identical attributes; two hyphenations of the same word through a shared dictionary give the same result and leave the dictionary unchanged.",
     "design_ref": "DESIGN.md section 4 C15",
     "note": "Trusted: symgo's model of map iteration (any permutation), z3. Native confirmation of a counterexample repeats the run 40 times, relying on Go's randomised range order.",
 }
@@ -266,10 +267,10 @@ H("C15", "html/document", "VxH_C15_anchor_order", reach=["compared"], bounds="pa
 
 # ---- C16 stacking order ----
 ASSUMPTIONS["C16"] = [
-    "three sibling blocks laid out by the real pipeline, each with symbolic position (static/relative), z-index (auto or -2..2), float (none/left) and opacity (1 or 0.5); the layers of the resulting stacking context are compared with CSS 2.1 Appendix E; the order of the drawing calls inside drawStackingContext and pixel output are not covered",
+    "three sibling blocks laid out by the real pipeline, each with symbolic position (static/relative), z-index (auto or -2..2), float (none/left) and opacity (1 or 0.5); the layers of the resulting stacking context are compared with CSS 2.1 Appendix E; VxH_C16_paint runs drawPage on a recording canvas (one token per Paint, named after the colour in use, opacity groups spliced in where composited) for html > body > (section, article > nav, aside) and compares the token sequence with Appendix E; pixel output, text, transforms and overflow clipping are not covered",
 ]
 CLAIMS["C16"] = {
-    "text": "For every combination of the symbolic style choices the solver-backed executor shows each box lands in the Appendix E layer it belongs to (negative z-index contexts ascending, in-flow blocks, floats, z-index 0/auto and opacity contexts in tree order, positive z-index ascending, ties in tree order).",
+    "text": "For every combination of the symbolic style choices the solver-backed executor shows each box lands in the Appendix E layer it belongs to (negative z-index contexts ascending, in-flow blocks, floats, z-index 0/auto and opacity contexts in tree order, positive z-index ascending, ties in tree order), and that backgrounds, borders and outlines reach the canvas in Appendix E order with background < border < outline per box and everything of a translucent box inside its opacity group.",
     "design_ref": "DESIGN.md section 4 C16",
     "note": "Trusted: symgo, z3.",
 }
@@ -278,7 +279,8 @@ H("C16", "html/document", "VxH_C16_layers", reach=["laid-out"], bounds="3 siblin
 # ---- C02 conservation of content ----
 ASSUMPTIONS["C02"] = [
     "text-free documents: the content units are unsplittable blocks (custom elements of symbolic height that fit on a page) laid out by the real pipeline on 100px pages; real mode; nil font configuration",
-    "text runs, line breaking (text engines), draw-once at the backend, running/fixed elements and table header repetition are outside the claim",
+    "text lines: one paragraph of one-word lines measured by text.VxAhem (metric-exact stand-in for the text engines) split over pages of symbolic height (VxH_C12_paragraph)",
+    "draw-once at the backend, running/fixed elements and table header repetition are outside the claim",
 ]
 CLAIMS["C02"] = {
     "text": "For symbolic block heights, an optional float and optional avoided breaks, and for a table row that is split over pages, the solver shows every unsplittable block is laid out on exactly one page, in document order: pagination neither loses nor duplicates it.",
@@ -290,18 +292,19 @@ H("C02", "html/layout", "VxH_C02_table_row", mode="real", reach=["laid-out"], bo
 
 # ---- C11 lines (alignment arithmetic only) ----
 ASSUMPTIONS["C11"] = [
-    "only the placement arithmetic of text-align is covered, for a line of symbolic width in a symbolic available width; line breaking, trailing-space handling, line heights and text-indent run through the text shaping engines (pango / go-text on font files), which this technique cannot encode: they are not covered",
+    "the placement arithmetic of text-align for a line of symbolic width in a symbolic available width; and whole-pipeline line breaking of one paragraph in a container of symbolic width, where the text shaping engines (pango / go-text on font files, which this technique cannot encode) are replaced by text.VxAhem: every rune an em square of the font size, ascent 0.8 em, breaks after spaces and at preserved line feeds only, no bidi, hyphenation or shaping. What the real engines do with real fonts is outside the claim",
+    "text-indent, line-height other than the font size, inline-blocks and justification are not covered",
 ]
 CLAIMS["C11"] = {
-    "text": "For fully symbolic line and available widths and every combination of text-align, text-align-last, direction and last-line flag the solver shows the offset computed by textAlign is the start / end / centre placement CSS Text defines and keeps the content inside the available width. Greedy breaking and line stacking are NOT claimed.",
+    "text": "For fully symbolic line and available widths and every combination of text-align, text-align-last, direction and last-line flag the solver shows the offset computed by textAlign is the start / end / centre placement CSS Text defines and keeps the content inside the available width. For a paragraph of 3..5 words (plain, pre-line with a line feed, with a padded inline box, nowrap, rtl) and every container width in [10, 200] px the lines hold every word once and in order, fit unless a single word, break only when the next word does not fit (plain text), have no leading / trailing space, are aligned as text-align says and stack without gap.",
     "design_ref": "DESIGN.md section 4 C11",
-    "note": "Trusted: symgo, z3 nlsat. Covers one anchored mechanism of the property only.",
+    "note": "Trusted: symgo, z3 nlsat, the VxAhem font model as a faithful client of the splitFirstLine contract.",
 }
 H("C11", "html/layout", "VxH_C11_align", mode="real", reach=["aligned"], bounds="line width and available width symbolic >= 0; text-align in {start,end,left,right,center}, text-align-last in {auto,...}, ltr/rtl, last-line flag")
 
 # ---- C01 termination / no crash (guard mechanisms) ----
 ASSUMPTIONS["C01"] = [
-    "the whole-document statement (all HTML x CSS x fonts x text engines) is out of reach; the claim covers the anchored guard mechanisms: root element discovery, var() resolution, bookmark outline, counter-style cycles, content quotes, and the no-panic obligation carried by every other harness of this suite (tokenizer, validators, selectors, tables, block layout on text-free documents)",
+    "the whole-document statement (all HTML x CSS x fonts x text engines) is out of reach; the claim covers the anchored guard mechanisms: root element discovery, var() resolution, bookmark outline, counter-style cycles, content quotes, SVG gradient / pattern template cycles, and the no-panic obligation carried by every other harness of this suite (tokenizer, validators, selectors, tables, block layout on text-free documents)",
 ]
 CLAIMS["C01"] = {
     "text": "Each guard mechanism is executed symbolically on its bounded input family and shown to return without panic; paths that exhaust the step/depth budget are replayed natively under a watchdog and reported as non-termination when the real code does not return either.",
